@@ -951,6 +951,38 @@ def _part_hd(task, rec, only=None):
 
 
 # --------------------------------------------------------------------------- part lhs (generators with explicit uniforms)
+# The caller may hand over the uniform numbers in any array form of the right total size: the one-dimensional vector,
+# the (N, R) table every generator of the library returns, the (R, N) table, a column, a row, a strided (non-contiguous)
+# one-dimensional view; through the keyword uniform_numbers, its old name uniformNumbers, or the deprecated alias
+# getLatinHypercubeDraws.  ('flat', 'new') is the original loop of the part (every shuffle answer); the others run with
+# three shuffle answers.  A two-dimensional array in Fortran order is outside the domain (the library reshapes the
+# supplied array in place, which numpy refuses for such a layout).
+LHS_FORMS = [('table', 'new'), ('tableT', 'new'), ('column', 'new'), ('row', 'new'), ('strided', 'new'),
+             ('flat', 'oldkw'), ('table', 'oldkw'), ('flat', 'alias'), ('table', 'alias')]
+LHS_FORM_TEXT = dict(flat='a vector', table='an (N, R) table', tableT='an (R, N) table', column='a column (N*R, 1)',
+                     row='a row (1, N*R)', strided='a strided vector view')
+
+
+def lhs_supplied(us, n, r, form):
+    """A new array holding the numbers us (in C order) in the given form; None when the form coincides with another."""
+    import numpy as np
+    a = np.array(us, dtype=float)
+    tot = n * r
+    if form == 'flat':
+        return a
+    if form == 'table':
+        return a.reshape(n, r)
+    if form == 'tableT':
+        return a.reshape(r, n) if n != r else None
+    if form == 'column':
+        return a.reshape(tot, 1) if r != 1 else None
+    if form == 'row':
+        return a.reshape(1, tot) if n != 1 else None
+    if form == 'strided':
+        return np.repeat(a, 2)[::2]
+    raise KeyError(form)
+
+
 def _part_lhs(task, rec, only=None):
     import numpy as np
     import biogeme.draws as dr
@@ -962,9 +994,15 @@ def _part_lhs(task, rec, only=None):
         for tid in TAPES:
             us = [tape_value(tid, j, tot, 0) for j in range(tot)]
             for symmetric in (False, True):
-                for perm in perms:
+                todo = list(perms)
+                extended = False
+                if only and only.get('perm', ['id'])[0] in ('map', 'const', 'dup'):      # replay of such an answer
+                    extended = True
+                    todo += [tuple(q) for q in noninjective_alphabet(tot)[0]]
+                while todo:
+                    perm = todo.pop(0)
                     case = dict(part='lhs', N=n, R=r, tape=tid, symmetric=symmetric, perm=list(perm))
-                    if only and {k: only.get(k) for k in case} != case:
+                    if only and ({k: only.get(k) for k in case} != case or only.get('form')):
                         continue
                     tape = Tape('mid', perm)
                     with owned(tape):
@@ -972,6 +1010,24 @@ def _part_lhs(task, rec, only=None):
                                                            uniform_numbers=np.array(us, dtype=float))
                     key = ('lhs', n, r, tid, symmetric, repr(perm))
                     got = flat(out)
+                    if 'selection-with-replacement' in tape.seams and not extended:
+                        # the points were 'shuffled' by a selection WITH replacement: every tuple of indices is a legal
+                        # answer of the RNG; those that are not rearrangements are enumerated too
+                        extended = True
+                        todo += [tuple(q) for q in noninjective_alphabet(tot)[0]]
+                    if perm[0] in ('map', 'const', 'dup'):
+                        unit = [(v + 1) / 2 for v in got] if symmetric else got
+                        ok_s, fragile, detail = strata_check(unit, tot)
+                        ok = tuple(out.shape) == (n, r) and (ok_s or fragile)
+                        rec.count('selection_with_replacement_answers')
+                        rec.case(key, (key, digest(out)), outcome=('lhs', symmetric, 'selection', ok))
+                        if not ok:
+                            rec.violation(f'C11|lhs-generator-explicit-uniforms|symmetric={symmetric}',
+                                          f'get_latin_hypercube_draws({n}, {r}, symmetric={symmetric}, uniform_numbers=tape '
+                                          f'{tid}) rearranges its points by a selection with replacement (numpy.random.'
+                                          f'choice); with the RNG answer {perm}: not one point per stratum; {detail}',
+                                          case, expected=f'one point per stratum of {tot}', observed=got[:6])
+                        continue
                     p, _ = realise_perm(perm, tot)
                     base = [(i + us[i]) / tot for i in range(tot)]
                     exp = [base[i] for i in p]
@@ -988,6 +1044,60 @@ def _part_lhs(task, rec, only=None):
                                       f'{tid}) with shuffle answer {perm}: expected the shuffled (i+u_i)/{tot} '
                                       f'construction, one point per stratum, no further RNG call; {detail}', case,
                                       expected=exp[:6], observed=got[:6])
+            # ---- the form in which the caller supplies the uniform numbers x the way the function is addressed
+            for form, call in LHS_FORMS:
+                arr0 = lhs_supplied(us, n, r, form)
+                if arr0 is None:
+                    rec.count('lhs_form_not_applicable')
+                    continue
+                for symmetric in (False, True):
+                    for perm in perms[:2] + perms[-1:]:
+                        case = dict(part='lhs', N=n, R=r, tape=tid, symmetric=symmetric, perm=list(perm), form=form,
+                                    call=call)
+                        if only and {k: only.get(k) for k in case} != case:
+                            continue
+                        arr = lhs_supplied(us, n, r, form)
+                        tape = Tape('mid', perm)
+                        with owned(tape):
+                            try:
+                                if call == 'new':
+                                    out = dr.get_latin_hypercube_draws(n, r, symmetric=symmetric, uniform_numbers=arr)
+                                elif call == 'oldkw':
+                                    out = dr.get_latin_hypercube_draws(n, r, symmetric=symmetric, uniformNumbers=arr)
+                                else:
+                                    out = dr.getLatinHypercubeDraws(n, r, symmetric=symmetric, uniformNumbers=arr)
+                            except UnownedRandomness:
+                                raise
+                            except Exception as e:  # noqa: BLE001
+                                out = e
+                        key = ('lhs', n, r, tid, symmetric, repr(perm), form, call)
+                        detail = ''
+                        if isinstance(out, Exception):
+                            ok, detail = False, f'raised {type(out).__name__}: {out}'
+                        elif tuple(getattr(out, 'shape', ())) != (n, r):
+                            ok, detail = False, f'shape {tuple(getattr(out, "shape", ()))} instead of ({n}, {r})'
+                        else:
+                            got = flat(out)
+                            unit = [(v + 1) / 2 for v in got] if symmetric else got
+                            ok_s, fragile, detail = strata_check(unit, tot)
+                            ok = (ok_s or fragile) and not any(k[0] == 'uniform' for k in tape.log)
+                            if ok and not fragile:
+                                # modified LHS: the positions inside the strata are the supplied numbers
+                                inside = sorted(v * tot - math.floor(v * tot) for v in unit)
+                                if not all(abs(a - b) <= 1e-9 for a, b in zip(inside, sorted(us))):
+                                    ok, detail = False, 'the positions inside the strata are not the supplied numbers'
+                        rec.case(key, (key, digest(out) if not isinstance(out, Exception) else 'raised'),
+                                 outcome=('lhs', form, call, symmetric, ok))
+                        if not ok:
+                            rec.violation(f'C11|lhs-generator-explicit-uniforms|symmetric={symmetric},form={form}',
+                                          f'{"getLatinHypercubeDraws" if call == "alias" else "get_latin_hypercube_draws"}'
+                                          f'({n}, {r}, symmetric={symmetric}, '
+                                          f'{"uniform_numbers" if call == "new" else "uniformNumbers"}=tape {tid} supplied '
+                                          f'as {LHS_FORM_TEXT[form]}) with shuffle answer {perm}: expected an ({n}, {r}) '
+                                          f'array with one point in each of the {tot} equal strata, at the supplied '
+                                          f'positions, no further RNG call; {detail}', case,
+                                          expected=f'one point per stratum of {tot}',
+                                          observed=repr(out)[:200] if isinstance(out, Exception) else flat(out)[:6])
             # get_antithetic with a deterministic unit generator
             if r % 2 == 0 and (not only or only.get('anti')):
                 halfw = [tape_value(tid, j, n * (r // 2), 0) for j in range(n * (r // 2))]
